@@ -5,6 +5,7 @@ package main
 // every timestamp stored anywhere in it, with the set of times it may legitimately come from.
 
 import (
+	"encoding/hex"
 	"encoding/json"
 	"fmt"
 	"math/rand"
@@ -226,6 +227,11 @@ func reproConfig(g *pkgGen, i int) genOut {
 	}
 	for _, k := range []string{"Source", "X-A", "X-B", "X-C", "X-D"} {
 		c.IPK.Fields[k] = "v-" + k
+	}
+	// a changelog (its dates are rendered as text inside the deb and the rpm)
+	if i%2 == 0 && c.Changelog == "" {
+		c.Changelog = "changelog.yaml"
+		gen.files = append(gen.files, extraFile{Path: "changelog.yaml", Hex: hex.EncodeToString([]byte(changelogYAML)), Mode: 0o644, MTime: 1650000100})
 	}
 	// a package mtime in the future (a release date, a far SOURCE_DATE_EPOCH) is an mtime like any other
 	if i%4 == 2 {
